@@ -1464,3 +1464,13 @@ for _src in ('f32', 'u8', 'u16', 'u32', 'i8', 'i16', 'i32', 'bool'):
     MODELS.setdefault('std::convert::num::<impl std::convert::From<%s> for f64>::from' % _src, _m_float_from)
 for _src in ('u8', 'u16', 'i8', 'i16', 'bool'):
     MODELS.setdefault('std::convert::num::<impl std::convert::From<%s> for f32>::from' % _src, _m_float_from)
+
+
+@add('std::ops::Range::contains', 'std::ops::Range::<Idx>::contains')
+def m_range_contains(I, a, t, c):
+    r = deref_all(I, a[0]) if isinstance(a[0], RefV) else a[0]
+    x = deref_all(I, a[1]) if isinstance(a[1], RefV) else a[1]
+    lo, hi = r.fields[0], r.fields[1]
+    if isinstance(x, float) or isinstance(lo, float):
+        return bv_bool(float(lo) <= float(x) < float(hi))
+    return bv_bool(I.conc(lo) <= I.conc(x) < I.conc(hi))
